@@ -3,7 +3,8 @@
 
 Runs a list of mutation-sweep tasks under a total worker budget (the machine is shared: at most 6 workers).
 A task is  PID:K[:J]   = tools/mutsweep.py PID --max-survivors K --jobs J   (J defaults to 2)
-       or  retest:PID  = tools/mutsweep.py PID --retest   (one worker; only survivors triaged GAP are re-run)
+       or  retest:PID  = tools/mutsweep.py PID --retest gaps   (one worker; only survivors triaged GAP are re-run)
+       or  recheck:PID[:J] = tools/mutsweep.py PID --recheck --jobs J   (all survivors + a sample of the detected, after ./check changed)
 Tasks start in the given order as soon as the budget allows; two tasks of the same property never run at the same time
 (they would share the /tmp paths), and sweeps already running outside this scheduler (started by hand) are counted too.
 Logs: build/mutsweep/logs/<task>.log
@@ -39,6 +40,9 @@ def main():
         if f[0] == "retest":
             pid, need = f[1], 1
             cmd = [os.path.join(ROOT, "tools", "mutsweep.py"), pid, "--retest", "gaps"]
+        elif f[0] == "recheck":      # recheck:PID[:J]
+            pid, need = f[1], int(f[2]) if len(f) > 2 else 2
+            cmd = [os.path.join(ROOT, "tools", "mutsweep.py"), pid, "--recheck", "--jobs", str(need)]
         else:
             pid, need = f[0], int(f[2]) if len(f) > 2 else 2
             cmd = [os.path.join(ROOT, "tools", "mutsweep.py"), pid, "--max-survivors", f[1], "--jobs", str(need)]
